@@ -4,7 +4,7 @@
    `Rawdata.load t alt` (each branch of which is tied to its LoadStore impl by C11_src_load_bits_is_model and
    C11_src_RawU8 / 16 / 24 / 32_load_is_model) they equal Rawdata.iter_next / iter_nth (state and result swapped: the
    generated definitions return (new self, result)); size_hint with `R::BITS_PER_PIXEL` := bits t equals Rawdata.size_hint
-   when 8 * len fits usize (len_ok).  Statements only (proofs: Proofs/SrcRawIter.v). *)
+   when 8 * len fits usize (len_ok); nth / size_hint (saturating_add / saturating_sub on usize) for every width U of usize.  Statements only (proofs: Proofs/SrcRawIter.v). *)
 From EG Require Import Base.Prelude Base.Casts Model.Rawdata Gen.SrcRawIter Proofs.SrcRawIter.
 
 Theorem C11_src_rawiter_new_is_model : forall data, src_RawDataIterator_new data = iter_new data.
@@ -12,16 +12,17 @@ Proof. exact src_rawiter_new_eq. Qed.
 Theorem C11_src_rawiter_next_is_model : forall (U : Usize) t alt s,
   src_RawDataIterator_next (load t alt) s = (snd (iter_next t alt s), fst (iter_next t alt s)).
 Proof. exact @src_rawiter_next_eq. Qed.
-Theorem C11_src_rawiter_nth_is_model : forall t alt s n, 0 <= it_index s -> 0 <= n ->
-  src_RawDataIterator_nth (load (U := usize64) t alt) s n = (snd (iter_nth (U := usize64) t alt s n), fst (iter_nth (U := usize64) t alt s n)).
-Proof. exact src_rawiter_nth_eq. Qed.
+Theorem C11_src_rawiter_nth_is_model : forall (U : Usize) t alt s n, 0 <= it_index s -> 0 <= n ->
+  src_RawDataIterator_nth (load t alt) s n = (snd (iter_nth t alt s n), fst (iter_nth t alt s n)).
+Proof. exact @src_rawiter_nth_eq. Qed.
 Theorem C11_src_rawiter_size_hint_is_model : forall (U : Usize) t s,
-  0 <= it_index s -> Z.of_nat (length (it_data s)) * 8 <= Casts.max_usize ->
+  0 <= it_index s -> Z.of_nat (length (it_data s)) * 8 <= usize_max ->
   src_RawDataIterator_size_hint (bits t) s = size_hint t s.
 Proof. exact @src_rawiter_size_hint_eq. Qed.
 
 Example C11_src_rawiter_nonvacuous :
   src_RawDataIterator_next (load (U := usize64) U16 true) (It [1; 2; 3; 4] 1) = (It [1; 2; 3; 4] 2, Some 772) /\
-  snd (src_RawDataIterator_nth (load (U := usize64) U4 false) (It [18; 52] 0) 2) = Some 3 /\
-  src_RawDataIterator_size_hint 4 (It [1; 2; 3] 1) = (5, Some 5).
+  snd (src_RawDataIterator_nth (U__ := usize_w_of (U := usize64)) (load (U := usize64) U4 false) (It [18; 52] 0) 2) = Some 3 /\
+  src_RawDataIterator_size_hint (U__ := usize_w_of (U := usize64)) 4 (It [1; 2; 3] 1) = (5, Some 5) /\
+  fst (src_RawDataIterator_nth (U__ := usize_w_of (U := usize16)) (load (U := usize16) U8 false) (It [1] 65530) 10) = It [1] 65535.
 Proof. repeat split; vm_compute; reflexivity. Qed.
